@@ -283,6 +283,24 @@ def _find_loop(fn):
     for anc in chain:
         if not isinstance(anc, ast.For):
             _fail("the loop over the result states is nested in something else than for loops", anc)
+    # nothing in the enclosing loops may skip / end the loop over the result states or swallow what it raises
+
+    def outside(node):
+        for ch in ast.iter_child_nodes(node):
+            if ch is loop:
+                continue
+            if isinstance(ch, (ast.Continue, ast.Break, ast.Return, ast.Raise, ast.Try, ast.With, ast.While)):
+                _fail("control flow around the loop over the result states is not understood", ch)
+            outside(ch)
+
+    for anc in chain:
+        outside(anc)
+    # ... and the function itself must be the plain generator: no statement after the outermost loop, no try around it
+    if chain and fn.body[-1] is not chain[0]:
+        _fail("statements after the loop over the frontier states", fn.body[-1])
+    for st in fn.body:
+        if isinstance(st, (ast.Try, ast.With, ast.While, ast.Return)) or (isinstance(st, ast.If) and any(isinstance(n, (ast.Return, ast.Raise)) for n in ast.walk(st))):
+            _fail("the prelude of _compute_frontier may end the computation early", st)
     return loop, chain
 
 
